@@ -396,6 +396,17 @@ WALK_K = {"x86_16": 8, "x86_32": 8, "x86_64": 8, "arm": 1, "armt": 6, "aarch64":
 X86_WALK_PFX = [(), (0x66,), (0x67,), (0xF3,)]
 
 
+# The seed-dependent generators draw from a *closed* set of streams: every stream has been swept
+# on the tree the known findings were collected on, so a VERIF_SEED outside 0..N-1 cannot bring up
+# a key nobody has looked at (it re-runs stream VERIF_SEED mod N).
+STREAMS = {"quick": {"C14": 21, "C15": 21, "C16": 13, "C17": 21},
+           "thorough": {"C14": 4, "C15": 4, "C16": 2, "C17": 4}}
+
+
+def stream_index(pid, tier, seed):
+    return int(seed) % STREAMS[tier][pid]
+
+
 def walk_rounds(n):
     """development aid: VERIF_NOWALK=1 runs only the seed-dependent part (key collection over many
     seeds); the seed-dependent candidates do not depend on the walk, so they are the same ones"""
@@ -485,7 +496,8 @@ def stream(spec, rng, index, n_random, walk=None):
         shard, nshards, rounds, stride = walk
         for j, (ci, v, r) in enumerate(walk_items(spec, rounds, stride)):
             if j % nshards == shard:
-                yield walk_candidate(spec, ci, v, r), "walk"
+                # 'walk0' / 'walk1': the all-zeros / all-ones variant of a class (one each per class)
+                yield walk_candidate(spec, ci, v, r), ("walk0" if v == "z" else "walk1" if v == "o" else "walk")
     corpus = Corpus(spec, rng, index=index)
     for _ in range(n_random):
         yield corpus.next()
@@ -694,3 +706,40 @@ def codec_sig(spec, instr):
     except Exception:
         pass
     return None
+
+
+def boundary_values(size):
+    """immediates at the encoding boundaries of a `size`-bit operand: 0, 1, 2^(k-1)-1, 2^(k-1),
+    2^k-1, 2^k for k = 8, 16, 32 and the sign-extension boundaries (-2^(k-1), -2^(k-1)-1, -1 as
+    `size`-bit values)"""
+    out = set([0, 1])
+    top = 1 << size
+    for k in (8, 16, 32):
+        for v in ((1 << (k - 1)) - 1, 1 << (k - 1), (1 << k) - 1, 1 << k):
+            if v < top:
+                out.add(v)
+        if k < size:
+            out.add(top - (1 << (k - 1)))
+            out.add(top - (1 << (k - 1)) - 1)
+    out.add(top - 1)
+    out.add(top >> 1)
+    out.add((top >> 1) - 1)
+    return sorted(out)
+
+
+def imm_sites(instr):
+    """[(operand index, size, build(value) -> new operand)] for the immediates of an instruction:
+    integer operands, absolute addresses and the displacement of a base+displacement operand"""
+    from miasm.expression.expression import ExprInt, ExprMem, ExprOp
+    out = []
+    for i, a in enumerate(instr.args):
+        if a.is_int():
+            out.append((i, a.size, lambda v, a=a: ExprInt(v, a.size)))
+        elif a.is_mem():
+            p = a.ptr
+            if p.is_int():
+                out.append((i, p.size, lambda v, a=a, p=p: ExprMem(ExprInt(v, p.size), a.size)))
+            elif p.is_op("+") and p.args[-1].is_int():
+                out.append((i, p.size, lambda v, a=a, p=p: ExprMem(
+                    ExprOp("+", *(list(p.args[:-1]) + [ExprInt(v, p.size)])), a.size)))
+    return out
